@@ -124,6 +124,7 @@ pub fn harnesses(prop: &str, tier: &str) -> Vec<Harness> {
         "C12" => c12(quick),
         "C14" => c14(quick),
         "C15" => c15(quick),
+        "C16" => c16(quick),
         "C18" => c18(quick),
         _ => Vec::new(),
     }
@@ -460,6 +461,18 @@ fn c14(quick: bool) -> Vec<Harness> {
     )]
 }
 
+fn c16(quick: bool) -> Vec<Harness> {
+    let cases = crate::c16::cases(quick);
+    let n = cases.len();
+    vec![crate::casex::case_harness(
+        "address-round-trip",
+        "C16",
+        cases,
+        crate::c16::run,
+        json!({"engine": "casex (bounded exhaustive enumeration) + real kernel", "cases": n, "alphabet": if quick { "IPv4: 8 first octets x {0,1,2,127,128,254,255}^3 x ports {0,1,80,65535}; IPv6: 64 structured addresses x ports x flowinfo {0,1,0xFFFFF,0x01020304,MAX} x scope {0,1,0x0a0b0c0d,MAX}; either-family over both; Unix path names of every length 1..107 (3 byte alphabets), abstract names of every length 0..107 (3 alphabets incl. embedded NULs), unnamed; kernel-reported lengths established on real sockets" } else { "IPv4: all 2^32 addresses x ports {0,1,80,65535}; IPv6, Unix as in quick but every alphabet at every length" }}),
+    )]
+}
+
 fn c11(quick: bool) -> Vec<Harness> {
     use crate::thworld::{C11Cfg, RingMode, c11};
     let mut v = Vec::new();
@@ -598,7 +611,7 @@ fn c01(quick: bool) -> Vec<Harness> {
     v
 }
 
-pub const ALL: &[&str] = &["C01", "C02", "C03", "C04", "C05", "C06", "C07", "C08", "C09", "C10", "C11", "C12", "C14", "C15", "C18"];
+pub const ALL: &[&str] = &["C01", "C02", "C03", "C04", "C05", "C06", "C07", "C08", "C09", "C10", "C11", "C12", "C14", "C15", "C16", "C18"];
 
 pub fn assumptions(prop: &str) -> Vec<String> {
     let mut v = vec![
